@@ -458,6 +458,47 @@ def check(ctx):
     ctx.ob('C17.R1.castling-literals', 'parse_san', {'O-O', 'O-O-O'} <= lits,
            'parse_san recognises the castling spellings the printer emits (%s)' % sorted(lits), site=ps.loc())
 
+    # what the printer appends, in which order and under which conditions (normal forms; the castling early returns aside)
+    from rules.norm import Norm as _NS
+    nsw = _NS(swc, inline=False, keep=('s', 'capturing_bb', 'matching_moves', 'moved_piece'))
+    KIND = frozenset(v for k_, v in pk.items() if k_ not in ('NO_PIECE_KIND', 'PAWN') and isinstance(v, int) and v <= pk['KING'])
+    ANYK = frozenset(v for k_, v in pk.items() if k_ != 'NO_PIECE_KIND' and isinstance(v, int) and v <= pk['KING'])
+    CAP = ('truthy', '(capturing_bb&square_bb(to(move)))', True)
+    expect = [('piece_str[moved_piece]', {('in', 'moved_piece', KIND | frozenset({0}))}, {('in', 'moved_piece', KIND)}),
+              ('file_str[file(from(move))]', {('ge', 'matching_moves.size()', 2)}, None),
+              ('rank_str[rank(from(move))]', {('ge', 'matching_moves.size()', 2)}, None),
+              ('file_str[file(from(move))]', {('eq', '""', 's'), ('in', 'moved_piece', frozenset({pk['PAWN']})), CAP}, None),
+              ('"x"', {CAP}, None),
+              ('squareToNotation(to(move))', set(), None),
+              ('"="', {('in', 'promotion(move)', ANYK)}, None),
+              ('promotion_str[promotion(move)]', {('in', 'promotion(move)', ANYK)}, None)]
+    found_app = []
+    for n in swc.all_nodes():
+        if n['k'] == 'CXXOperatorCallExpr' and n.get('op') == '+=' and nsw.s(kids(n)[1]) == 's':
+            fa = set(a for a in nsw.facts(guard_facts(swc, n)) if not (a[0] == 'in' and a[1] == 'castling(move)'))
+            found_app.append((nsw.s(kids(n)[2]), fa, n))
+    bad_app = None
+    if [v for v, _fa, _n in found_app] != [v for v, _w, _alt in expect]:
+        known_vals = {v for v, _w, _alt in expect}
+        if any(v not in known_vals for v, _fa, _n in found_app):
+            raise AnalysisBroken('san_without_check appends `%s`, which the rule does not know' % [v for v, _fa, _n in found_app if v not in known_vals][0])
+        bad_app = 'appended in the order %s, expected %s' % ([v for v, _fa, _n in found_app], [v for v, _w, _alt in expect])
+    else:
+        for (v, fa, n), (_v, want_, alt_) in zip(found_app, expect):
+            if fa != want_ and (alt_ is None or fa != alt_) and bad_app is None:
+                bad_app = '%s is appended under %s, expected %s (line %s)' % (v, sorted(map(str, fa)), sorted(map(str, want_)), n.get('l'))
+    ctx.ob('C17.R1.printer-fields', 'san_without_check', bad_app is None,
+           'the printer writes piece letter (not for pawns), file and rank only when needed, the capturing pawn\'s file, `x` for a capture, '
+           'the target square and `=` + letter for a promotion, in this order%s' % ('' if bad_app is None else ' — ' + bad_app), site=swc.loc())
+    cbd = [n for n in swc.all_nodes() if n['k'] == 'VarDecl' and n.get('name') == 'capturing_bb' and kids(n)]
+    cbu = [n for n in swc.all_nodes() if n['k'] == 'CompoundAssignOperator' and nsw.s(kids(n)[0]) == 'capturing_bb']
+    okc = len(cbd) == 1 and nsw.s(kids(cbd[0])[0]) in ('pieces(!(_current_side))',) and len(cbu) == 1 and cbu[0].get('op') == '|=' and \
+        nsw.s(kids(cbu[0])[1]) == 'square_bb(_enpassant_square)' and \
+        set(a for a in nsw.facts(guard_facts(swc, cbu[0])) if not (a[0] == 'in' and a[1] == 'castling(move)')) == \
+        {('in', '_enpassant_square', frozenset(range(64))), ('in', 'moved_piece', frozenset({pk['PAWN']}))}
+    ctx.ob('C17.R1.printer-capture', 'san_without_check', bool(okc),
+           'a capture is a move onto an enemy piece or, for a pawn, onto the e.p. square when there is one', site=swc.loc())
+
     # disambiguation: what is printed about the origin must single the mover out among the candidates
     base_attrs = {'kind', 'target', 'promotion'}
     n_dp = 0
